@@ -23,6 +23,7 @@ pub fn c07(rep: &mut Report, tier: &str) {
     // boundary-relevant strings at every offset of long lines (word-at-a-time scans, chunked copies)
     push(rep, crate::e3_long::c07_long(if quick { 4 } else { 6 }, if quick { 48 } else { 80 }));
     push(rep, crate::e3_long::c07_roundtrip_long(if quick { 40 } else { 72 }));
+    push(rep, crate::e3_long::c07_many_tokens(if quick { 3 } else { 4 }));
 }
 
 pub fn c08(rep: &mut Report, tier: &str) {
@@ -40,6 +41,7 @@ pub fn c08(rep: &mut Report, tier: &str) {
     push(rep, c08_lists(&["-", "a", "é"], 2, if quick { 5 } else { 6 }));
     push(rep, c08_lists(&["-", "a"], 3, 4));
     push(rep, crate::e3_long::c08_long());
+    push(rep, crate::e3_long::c08_many_tokens());
 }
 
 pub fn c17(rep: &mut Report, tier: &str) {
